@@ -409,6 +409,7 @@ class Interp:
         self.solver = z3.Solver()
         self.solver.set("timeout", ctx.solver_timeout_ms)
         self.solver_pcs: List[Any] = []
+        self.str_facts: Dict[str, Dict[int, Any]] = {"nocontain": {}, "prefix": {}, "suffix": {}, "minlen": {}}
         self.counter = 0
         self.frames: List[Frame] = []
         self.frame_counter = 0
@@ -456,6 +457,7 @@ class Interp:
         if not has_quantifier(cond):
             self.solver.add(cond)
             self.solver_pcs.append(cond)
+            self._record_fact(cond)
 
     def assume_checked(self, cond):
         self.assume(cond)
@@ -463,6 +465,38 @@ class Interp:
             r = self._check()
             if r == z3.unsat:
                 raise PathEnd("assumption infeasible")
+
+    # -- a small syntactic fact base about strings (keeps trivial string questions away from the solver)
+    def _record_fact(self, c):
+        try:
+            if z3.is_and(c):
+                for x in c.children():
+                    self._record_fact(x)
+                return
+            if z3.is_not(c):
+                a = c.arg(0)
+                if z3.is_app(a) and a.decl().kind() == z3.Z3_OP_SEQ_CONTAINS and z3.is_string_value(a.arg(1)):
+                    t = a.arg(0)
+                    self.str_facts["nocontain"].setdefault(t.get_id(), (t, set()))[1].add(V._unescape(a.arg(1).as_string()))
+                return
+            if z3.is_app(c):
+                k = c.decl().kind()
+                if k == z3.Z3_OP_SEQ_PREFIX and z3.is_string_value(c.arg(0)):
+                    t = c.arg(1)
+                    self.str_facts["prefix"].setdefault(t.get_id(), (t, set()))[1].add(V._unescape(c.arg(0).as_string()))
+                    self.str_facts["minlen"][t.get_id()] = (t, max(1, self.str_facts["minlen"].get(t.get_id(), (t, 0))[1]))
+                elif k == z3.Z3_OP_SEQ_SUFFIX and z3.is_string_value(c.arg(0)):
+                    t = c.arg(1)
+                    self.str_facts["suffix"].setdefault(t.get_id(), (t, set()))[1].add(V._unescape(c.arg(0).as_string()))
+                    self.str_facts["minlen"][t.get_id()] = (t, max(1, self.str_facts["minlen"].get(t.get_id(), (t, 0))[1]))
+        except Exception:
+            pass
+
+    def fact(self, kind, t):
+        e = self.str_facts[kind].get(t.get_id())
+        if e is not None and e[0].eq(t):
+            return e[1]
+        return None
 
     def _sliced(self, extra):
         """Cone of influence: the ground path-condition conjuncts that (transitively) share a symbol with the
@@ -522,8 +556,12 @@ class Interp:
             self._add_pc(cond if d else z3.Not(cond))
             self.trace.append(f"{self.cur_func}:{self.cur_line}:{label}={'T' if d else 'F'}")
             return d
-        can_t = self._check(cond) != z3.unsat
-        can_f = self._check(z3.Not(cond)) != z3.unsat
+        fd = self._fast_decide(cond)
+        if fd is not None:
+            can_t, can_f = fd, not fd
+        else:
+            can_t = self._check(cond) != z3.unsat
+            can_f = self._check(z3.Not(cond)) != z3.unsat
         if not can_t and not can_f:
             raise PathEnd("infeasible")
         if can_t and can_f:
@@ -536,6 +574,64 @@ class Interp:
         self._add_pc(cond if d else z3.Not(cond))
         self.trace.append(f"{self.cur_func}:{self.cur_line}:{label}={'T' if d else 'F'}")
         return d
+
+    def _fast_decide(self, cond):
+        """Decide a condition that only speaks about lengths of strings/sequences by abstracting every Length(t) to a
+        non-negative integer (plus known minimum lengths).  Returns True/False when the abstraction decides it."""
+        try:
+            c = z3.simplify(cond)
+            lens = {}
+            ok = [True]
+
+            def walk(x):
+                if z3.is_app(x):
+                    if x.decl().kind() == z3.Z3_OP_SEQ_LENGTH:
+                        lens[x.get_id()] = x
+                        return
+                    if x.sort().kind() in (z3.Z3_SEQ_SORT, z3.Z3_DATATYPE_SORT, z3.Z3_ARRAY_SORT):
+                        ok[0] = False
+                        return
+                    if x.decl().kind() == z3.Z3_OP_UNINTERPRETED and x.num_args() == 0:
+                        ok[0] = False          # a free integer/bool: constrained elsewhere, not by lengths alone
+                        return
+                    for ch in x.children():
+                        walk(ch)
+                elif z3.is_quantifier(x):
+                    ok[0] = False
+            walk(c)
+            if not ok[0] or not lens:
+                return None
+            subs, side = [], []
+            atoms = {}
+
+            def len_expr(u):
+                u = z3.simplify(u)
+                if z3.is_string_value(u):
+                    return z3.IntVal(len(V._unescape(u.as_string())))
+                if z3.is_app(u) and u.decl().kind() == z3.Z3_OP_SEQ_CONCAT:
+                    return z3.Sum([len_expr(ch) for ch in u.children()])
+                if z3.is_app(u) and u.decl().kind() == z3.Z3_OP_SEQ_UNIT:
+                    return z3.IntVal(1)
+                key = u.get_id()
+                if key not in atoms:
+                    v = z3.Int(f"len!abs{len(atoms)}")
+                    ml = self.fact("minlen", u)
+                    side.append(v >= (ml if ml else 0))
+                    atoms[key] = (u, v)
+                return atoms[key][1]
+            for k, t in lens.items():
+                subs.append((t, len_expr(t.arg(0))))
+            a = z3.substitute(c, *subs)
+            s1 = z3.Solver()
+            s1.set("timeout", 500)
+            s1.add(*side)
+            if s1.check(a) == z3.unsat:
+                return False
+            if s1.check(z3.Not(a)) == z3.unsat:
+                return True
+        except Exception:
+            return None
+        return None
 
     def choose_n(self, n: int, label="") -> int:
         """Nondeterministic choice among n alternatives made by the environment."""
